@@ -298,6 +298,7 @@ void World::checkAsserts(int i, const Op& op) {
 	if (!asserts.empty() && !wants("C11")) {
 		// hits the policy let pass (not part of any documented finding): the lens judges what the library did next
 		probe("assertion_continued");
+		{ std::string e = asserts.front().expr.substr(0, 48); for (auto& ch : e) if (ch == '"' || ch == '\\') ch = '\''; probe("assertion_continued: " + e); }
 		asserts.clear();
 	}
 	if (!asserts.empty()) {
@@ -725,6 +726,16 @@ std::string World::assertTag(const std::string& expr) const {
 	if (expr.find("tasksFailures .get(stateId)") != std::string::npos || expr.find("tasksSuccesses.get(stateId)") != std::string::npos) return "status_mark_on_inactive_state";
 	const Harness* h = (curNode >= 0 && curNode < int(slots.size())) ? slots[size_t(curNode)].h.get() : nullptr;
 	if (h && expr.find("registry.isActive(HEAD_ID)") != std::string::npos && h->inActivation && h->shape->isOrtho(0)) return "activation_request_ortho_root";
+	// a request naming a region that is active directly below an orthogonal region is forwarded into the region's active sub-state as if it were
+	// addressed further down; an orthogonal region met on that way finds none of its sub-states requested
+	if (h && expr == "!!requested") {
+		const Shape& sh = *h->shape;
+		auto named = [&](int d) { if (d < 0 || d >= sh.n || !sh.isCompo(d)) return false; const int par = sh.st[size_t(d)].parent; const Obs& ob = slots[size_t(curNode)].obs; return par >= 0 && sh.isOrtho(par) && d < int(ob.active.size()) && ob.active[size_t(d)] != 0; };
+		for (auto& q : slots[size_t(curNode)].obs.queued) if (q.kind != K_SCHEDULE && named(q.dest)) return "active_region_under_ortho_not_retargeted";
+		for (auto& e : h->trace) if (e.k == EV_ISSUE && e.a != K_SCHEDULE && named(e.b)) return "active_region_under_ortho_not_retargeted";
+		for (auto& pl : slots[size_t(curNode)].obs.plans) for (auto& tk : pl) if (named(tk.dest)) return "active_region_under_ortho_not_retargeted";      // a task about to be executed
+		for (auto& e : h->trace) if (e.k == EV_PLAN_EDIT && (e.a & 0xFF) == A_PLAN_APPEND && named(int(e.c & 0xFFFF))) return "active_region_under_ortho_not_retargeted";
+	}
 	return "";
 }
 
@@ -735,9 +746,11 @@ static bool assertPolicy(const char* expr) {
 	// the memory-safety lens stops at the first hit; so does everybody for hits that belong to a documented finding.
 	// Any other assertion is news: under the other lenses the library carries on as a production build would, and the lens judges the outcome.
 	if (w->wants("C11")) return true;
+	static const bool strict = std::getenv("VF_ASSERT_STRICT") != nullptr;     // triage aid: every lens stops at every hit
+	if (strict) return true;
 	if (!w->assertTag(expr).empty()) return true;
 	// bounds assertions stand right in front of an indexed access: carrying on would only turn the hit into a sanitizer abort
-	{ const std::string e(expr); for (const char* pat : {"< WIDTH", "< CAPACITY", "<= CAPACITY", "< STATE_COUNT", "< count", "< _count", "<= _count", "index <", "INVALID", "< REGION_COUNT", "< COMPO", "< ORTHO", "< TASK", "Id <", "prong <"}) if (e.find(pat) != std::string::npos) return true; }
+	{ const std::string e(expr); for (const char* pat : {"< CAPACITY", "<= CAPACITY", "< STATE_COUNT", "< count", "< _count", "<= _count", "index <", "< REGION_COUNT", "< COMPO", "< ORTHO", "< TASK"}) if (e.find(pat) != std::string::npos) return true; }
 	++w->assertionsContinued;
 	return w->assertionsContinued > 200;
 }
@@ -763,6 +776,7 @@ RunResult World::run() {
 				if (h->round + 1 > h->node->substitutionLimit()) violate("C04.round_limit", h->role + ": " + std::to_string(h->round + 1) + " guard rounds in one processing step, substitution limit is " + std::to_string(h->node->substitutionLimit()), curNode);
 				else if (h->round + 1 == h->node->substitutionLimit()) probe("round_limit_reached_with_leftovers");
 			}
+			if (std::getenv("VF_ASSERT_STRICT") && tag.empty()) std::fprintf(stderr, "STRICT-ASSERT `%s` %s:%d seed=%llu shape=%s config=%s lens=%s\n", a.expr.c_str(), a.file.c_str(), a.line, (unsigned long long) plan.seed, plan.wp.shape.c_str(), plan.wp.config.c_str(), plan.lens.c_str());
 			checked("C11.assert");
 			violate("C11.assert", (h ? h->role : std::string("?")) + ": library assertion `" + a.expr + "` failed at " + a.file + ":" + std::to_string(a.line) + " during " + opName(curOpKind), curNode, tag);
 		}
